@@ -38,6 +38,10 @@ func Check(v any) error {
 		return errors.New("jsonapi: ID field's api tag is empty")
 	}
 
+	if idField.Type.Kind() != reflect.String {
+		return errors.New("jsonapi: ID field is not a string")
+	}
+
 	// Check attributes
 	for i := 0; i < value.NumField(); i++ {
 		sf := value.Type().Field(i)
